@@ -274,7 +274,10 @@ def check(ctx):
     for key in ('VolumeSSASimulator', 'DelayVolumeSSASimulator'):
         sl_ = simloop.SimLoop(ctx, key)
         pr_, n_ = simloop.event_race(sl_)
-        ctx.ob('R11.2-event-race', key, not pr_, sl_.where, RACE_WHAT % n_, '; '.join(pr_[:2]))
+        pr2_, n2_ = simloop.event_race_run(sl_)
+        if pr_ is None:     # a pass is not evaluable in isolation (it reads locals carried between passes): the run decides
+            pr_, n_ = [], 0
+        ctx.ob('R11.2-event-race', key, not pr_ and not pr2_, sl_.where, RACE_WHAT % (n_, n2_), '; '.join((pr2_ + pr_)[:2]))
     check_growth(ctx)
     ctx.floor('R11.1-volume-formula', 16)
     ctx.floor('R11.2-pairing', 2)
